@@ -321,13 +321,15 @@ func (d cliDir) entries() []string {
 }
 
 // run executes one invocation in the scratch directory.
-func (d cliDir) run(r cliRun, nocache bool) cliResult { return d.runEnv(r, nocache, nil, -1) }
+func (d cliDir) run(r cliRun, nocache bool) cliResult { return d.runEnv(r, nocache, nil, -1, 0) }
 
 // runEnv: as run, with another environment (env != nil replaces the HOME / XDG_CACHE_HOME /
 // TMPDIR settings) and, when skip >= 0, with stdin a REGULAR FILE that holds `skip` bytes of
 // other text in front of the input and is positioned behind them (what `{ read x; gts …; } < file`
 // hands to the command).
-func (d cliDir) runEnv(r cliRun, nocache bool, env []string, skip int) cliResult {
+// outBlocks > 0: stdout is a regular file under `ulimit -f outBlocks` (512-byte blocks): the
+// output writer fails once the file is full.
+func (d cliDir) runEnv(r cliRun, nocache bool, env []string, skip int, outBlocks int) cliResult {
 	args := []string{r.cmd}
 	if nocache {
 		// first: go-gts/flags lets a slice option (-q, -n) swallow following words depending on what
@@ -357,6 +359,12 @@ func (d cliDir) runEnv(r cliRun, nocache bool, env []string, skip int) cliResult
 	ctx, cancel := context.WithTimeout(context.Background(), 5*time.Second)
 	defer cancel()
 	cmd := exec.CommandContext(ctx, gtsBinary(), args...)
+	limited := filepath.Join(d.root, "stdout-limited")
+	if outBlocks > 0 {
+		os.Remove(limited)
+		sh := fmt.Sprintf("ulimit -f %d; exec \"$0\" \"$@\" > %s", outBlocks, limited)
+		cmd = exec.CommandContext(ctx, "/bin/sh", append([]string{"-c", sh, gtsBinary()}, args...)...)
+	}
 	cmd.Env = []string{"HOME=" + filepath.Join(d.root, "home"), "XDG_CACHE_HOME=" + filepath.Join(d.root, "cache"),
 		"TMPDIR=" + filepath.Join(d.root, "tmp"), "PATH=/usr/bin:/bin"}
 	if env != nil {
@@ -392,6 +400,9 @@ func (d cliDir) runEnv(r cliRun, nocache bool, env []string, skip int) cliResult
 		panic(err)
 	}
 	res.out = stdout.Bytes()
+	if outBlocks > 0 {
+		res.out, _ = ioutil.ReadFile(limited)
+	}
 	if outPath != "" {
 		if b, err := ioutil.ReadFile(outPath); err == nil {
 			res.out = append(append([]byte{}, res.out...), b...)
